@@ -105,6 +105,12 @@ def new_state(kind):
         st.msg = ULR(session_id=b"u;1;2", origin_host="h0.example", origin_realm="r0", destination_realm="dr",
                      user_name="user0", visited_plmn_id=b"\x01\x02\x03", rat_type=b"\x00\x00\x03\xec",
                      ulr_flags=34)
+    elif kind == "loaded-empty":
+        # a header-only message as the decoder returns it (what a relay starts from)
+        st.msg = DiameterMessage.load(bytes.fromhex("01000014800001180000000000000001000000020"[:40]))[0]
+    elif kind == "loaded-dwr":
+        from bromelia.messages import DWR
+        st.msg = DiameterMessage.load(DWR(origin_host="h0.example", origin_realm="r0").dump())[0]
     for i, o in enumerate(st.msg.avps):
         st.labels[id(o)] = f"I{i}"
         st.keep.append(o)
@@ -233,8 +239,13 @@ PROFILES = {
         "empty": (["A", "A2", "B", "U"], 3, NEW_KEYS[1:], UPDATES[:1] + UPDATES[2:3], False),
         "dwr": (["A", "A2"], 3, NEW_KEYS[:1], UPDATES[:3], False),
         "ulr": (["A", "A2"], None, [], UPDATES[:3], False),
+        # messages as the decoder returns them (the 'loaded' flag keeps the wire length until the content changes)
+        "loaded-empty": (["A", "B"], 2, NEW_KEYS[:1], UPDATES[:1], False),
+        "loaded-dwr": (["A"], 3, NEW_KEYS[:1], UPDATES[:2], False),
     },
     "thorough": {
+        "loaded-empty": (["A", "A2", "B"], 3, NEW_KEYS[:1], UPDATES[:1] + UPDATES[2:3], False),
+        "loaded-dwr": (["A", "A2"], 4, NEW_KEYS[:1], UPDATES[:3], False),
         "empty": (LETTERS, 3, NEW_KEYS[1:], UPDATES[:1] + UPDATES[2:3], True),
         "empty4": (["A", "A2", "B"], 4, NEW_KEYS[:1], UPDATES[:1] + UPDATES[2:3], False),
         "dwr": (["A", "A2", "U"], 4, NEW_KEYS[:1], UPDATES, False),
@@ -270,7 +281,7 @@ class ContainerModel:
         room = st.cap - len(lst)
         if room >= 1:
             ops += [("append", x) for x in free]
-        if room >= 2 and self.kind == "empty":
+        if room >= 2 and self.kind in ("empty", "loaded-empty"):
             ops += [("extend", x, y) for x in free for y in free if x != y]
         names = sorted(view)
         if self.kind == "ulr":
@@ -287,7 +298,9 @@ class ContainerModel:
                 ops += [("set_avps", (x, y)) for x in letters for y in letters if x != y]
             else:
                 ops += [("set_avps", ("A", "A2")), ("set_avps", ("A2", "A")), ("set_avps", ("B", "A"))]
-        if self.kind in ("empty", "dwr"):
+        if self.kind == "loaded-empty":
+            ops += [("set_avps", ()), ("set_avps", ("A",)), ("set_avps", ("B", "A"))]
+        if self.kind in ("empty", "dwr", "loaded-empty", "loaded-dwr"):
             ops += [("setitem", i, x) for i in range(len(lst)) for x in free]
             for old in names:
                 for new in new_keys + names[:1]:
@@ -327,7 +340,7 @@ def run(report, tier, seed):
     cap = 3 if tier == "quick" else 4
     states = transitions = 0
     for pname in sorted(PROFILES[tier]):
-        kind = pname.rstrip("4")
+        kind = pname[:-1] if pname.endswith("4") else pname
         model = ContainerModel(kind, None, PROFILES[tier][pname])
         res = hist.bfs_parallel(model, report, core.jobs(), max_states=300000,
                                 budget_s=120 if tier == "quick" else 1500)
@@ -352,7 +365,7 @@ def run(report, tier, seed):
 def replay(w):
     history = [tuple(tuple(x) if isinstance(x, list) else x for x in op) for op in w["history"]]
     worst = False
-    for kind in ("empty", "dwr", "ulr"):
+    for kind in ("empty", "dwr", "ulr", "loaded-empty", "loaded-dwr"):
         model = ContainerModel(kind, 6)
         try:
             st, errs = model.step(tuple(history[:-1]), history[-1])
